@@ -150,7 +150,7 @@ func verifC38Structural(stored []byte) []int {
 			pos++ // window descriptor
 		}
 		pos += []int{0, 1, 2, 4}[fhd&3] // dictionary id
-		switch fhd >> 6 {                // frame content size
+		switch fhd >> 6 {               // frame content size
 		case 0:
 			if single {
 				pos++
@@ -404,7 +404,9 @@ func TestVerifC38ChunkStored(t *testing.T) {
 		k.Key("chunk", stored)
 		k.SetNonTrivial(sameSize == nVar && identical > 0)
 		k.Label("intact chunk decodes")
-		k.Sample(func() any { return fmt.Sprintf("intact chunk %dB logical/%dB stored decodes", len(logical), len(stored)) })
+		k.Sample(func() any {
+			return fmt.Sprintf("intact chunk %dB logical/%dB stored decodes", len(logical), len(stored))
+		})
 		k.LabelIf(len(logical) > 128<<10, "chunk with several zstd blocks")
 		k.LabelIf(len(logical) == 0, "chunk with empty logical part")
 	})
